@@ -1693,10 +1693,25 @@ class Engine(OpsMixin):
             raise Unsupported("str/repr of a float carrying rounding noise (17 significant digits)")
         if isinstance(x, SymFloat) and x.dec is not None:
             return LazyStr([("float", x)])
+        if isinstance(x, SymFloat) and x.ival is not None and x.noise is None:
+            # an integer-valued float below 10^16 prints as the integer followed by '.0'
+            n = x.ival if isinstance(x.ival, (int, SymInt)) else SymInt(x.ival)
+            if self.must(self.and_(self.cmp("Gt", n, -10 ** 16), self.cmp("Lt", n, 10 ** 16))):
+                return LazyStr([("int", n), ".0"])
         if isinstance(x, SymBool):
             return "True" if self.truth(x) else "False"
         if is_sym(x) or isinstance(x, Opaque):
             return LazyStr([("opaque", x)])
+        if isinstance(x, tuple) and hasattr(type(x), "_fields") and deep_sym(x) and \
+                (conv == 114 or "__str__" not in type(x).__dict__):
+            # collections.namedtuple repr: Name(field=repr, ...)
+            parts = [type(x).__name__ + "("]
+            for i, (fname, val) in enumerate(zip(type(x)._fields, x)):
+                parts.append(("" if i == 0 else ", ") + fname + "=")
+                r = self.to_str(val, 114)
+                parts.extend(r.parts if isinstance(r, LazyStr) else [r])
+            parts.append(")")
+            return LazyStr(parts)
         if isinstance(x, (tuple, list, dict)) and deep_sym(x):
             return LazyStr([("opaque", x)])
         if isinstance(x, BaseException) and any(isinstance(a, _ExcArg) for a in x.args):
